@@ -126,8 +126,10 @@ def _process_constraint_req(
 ) -> str:
     assert node.metadata is not None, "Node {} must be solved".format(node)
     extras: Set[str] = set()
-    # Determine which extras, if any, were the reason this req was included.
-    if req.marker:
+    # Determine which extras, if any, were the reason this req was included. A marker
+    # that already holds without any extra (e.g. `python_version >= "3" or extra == "x"`)
+    # was not activated by one.
+    if req.marker and not req.marker.evaluate({"extra": ""}):
         for marker in req.marker._markers:  # pylint: disable=protected-access
             if (
                 isinstance(marker, tuple)
